@@ -82,3 +82,52 @@ def solve(formulas, timeout_ms=20000, want_model=True, fallback=True, tactics=Tr
                 return res
     res['time'] = time.time() - t0
     return res
+
+
+def expand_bounded(f, limit=64):
+    """expand  forall q. (lo <= q < hi) => body  with numeric bounds into a finite conjunction (used in refutation mode, where sizes are concrete);
+    anything of another shape is returned unchanged"""
+    if not z3.is_quantifier(f) or not f.is_forall() or f.num_vars() != 1:
+        return f
+    body = f.body()
+    if not z3.is_implies(body):
+        return f
+    guard, inner = body.arg(0), body.arg(1)
+    q = z3.Var(0, f.var_sort(0))
+    lo = hi = None
+    parts = list(guard.children()) if z3.is_and(guard) else [guard]
+    for p_ in parts:
+        p_ = z3.simplify(p_)
+        if z3.is_app(p_) and p_.num_args() == 2:
+            a, b = p_.arg(0), p_.arg(1)
+            k = p_.decl().kind()
+            if a.eq(q) and z3.is_int_value(b):
+                if k == z3.Z3_OP_GE:
+                    lo = b.as_long()
+                elif k == z3.Z3_OP_GT:
+                    lo = b.as_long() + 1
+                elif k == z3.Z3_OP_LT:
+                    hi = b.as_long()
+                elif k == z3.Z3_OP_LE:
+                    hi = b.as_long() + 1
+            elif z3.is_not(p_):
+                pass
+        if z3.is_not(p_) and p_.arg(0).num_args() == 2:
+            inner_p = p_.arg(0)
+            a, b = inner_p.arg(0), inner_p.arg(1)
+            k = inner_p.decl().kind()
+            if a.eq(q) and z3.is_int_value(b):          # simplify turns  q < n  into  not (n <= q)
+                if k == z3.Z3_OP_GE:
+                    hi = b.as_long()
+                elif k == z3.Z3_OP_LE:
+                    lo = b.as_long() + 1
+            elif b.eq(q) and z3.is_int_value(a):
+                if k == z3.Z3_OP_LE:
+                    hi = a.as_long()
+                elif k == z3.Z3_OP_GE:
+                    lo = a.as_long() + 1
+    if lo is None or hi is None or hi - lo > limit:
+        return f
+    if hi <= lo:
+        return z3.BoolVal(True)
+    return z3.And(*[z3.substitute_vars(z3.Implies(guard, inner), z3.IntVal(v)) for v in range(lo, hi)])
